@@ -182,7 +182,7 @@ class AnyArray(np.lib.mixins.NDArrayOperatorsMixin):
         >>> arr[0] = 10  # Raises ValueError
 
         """
-        if isinstance(self, np.ndarray):
+        if isinstance(self._val, np.ndarray):
             self._val.flags.writeable = False
         # TODO: Set writable to False for cupy arrays as well, as soon as
         # https://github.com/cupy/cupy/issues/2616 is resolved
